@@ -4,6 +4,7 @@ import (
 	"fmt"
 	"go/token"
 	"go/types"
+	"os"
 
 	"golang.org/x/tools/go/ssa"
 )
@@ -11,7 +12,7 @@ import (
 func init() {
 	register(&propInfo{
 		ID:          "C18",
-		Explanation: "Path, lock-order and site analysis of client shutdown: (R18.1) the WebSocket closer signals stop and then waits for the loop's exit signal; the loop's stop arm returns on every path; (R18.2) in the redial goroutine every dial is preceded, after the back-off sleep, by a check of the loop's context whose done branch returns, every path from a dial to the socket swap passes such a check, and that context is the one cancelled when the loop exits; (R18.3) the lock-order graph over all library mutexes is acyclic and (R18.5) no mutex stays locked on a return path; (R18.4) closers of HTTP and custom-transport clients only close a channel made by their constructor; (R18.6) every loop exit fails in-flight calls, closes sinks, raises the exit signal and cancels the context; the failer empties the table; every enqueue of a request (including the cancel notification) is a select alternative to the exit signal, so callers are released; no deferred cleanup can block (the ping stopper does not wait). (R18.8) the stream buffering goroutine always keeps receiving (the exit cleanup needs the sink-table lock held by the executor during hand-over). (R18.9) a sink is removed from the table, under its lock, before it is closed.",
+		Explanation: "Path, lock-order and site analysis of client shutdown: (R18.1) the WebSocket closer signals stop and then waits for the loop's exit signal; the loop's stop arm returns on every path; (R18.2) in the redial goroutine every dial is preceded, after the back-off sleep, by a check of the loop's context whose done branch returns, every path from a dial to the socket swap passes such a check, and that context is the one cancelled when the loop exits; (R18.3) the lock-order graph over all library mutexes is acyclic and (R18.5) no mutex stays locked on a return path; (R18.4) closers of HTTP and custom-transport clients only close a channel made by their constructor; (R18.6) every loop exit fails in-flight calls, closes sinks, raises the exit signal and cancels the context; the failer empties the table; every enqueue of a request (including the cancel notification) is a select alternative to the exit signal, so callers are released; no deferred cleanup can block (the ping stopper does not wait). (R18.8) the stream buffering goroutine always keeps receiving (the exit cleanup needs the sink-table lock held by the executor during hand-over). (R18.9) a sink is removed from the table, under its lock, before it is closed. (R18.10) the buffering goroutine's exit test looks at the buffer itself.",
 		NotDecided:  "A loop blocked inside a socket write to a blackholed peer (no write deadline is set by the library), helper goroutines parked on a bare send when the loop exits mid-read (observations in DESIGN.md), real schedules.",
 		Assumptions: []string{"lock identity is the mutex field (type-based)"},
 		Run:         runC18,
@@ -86,6 +87,7 @@ func runC18(c *Ctx) {
 			}
 			// the returned closure
 			var closer *ssa.Function
+			var closerMC *ssa.MakeClosure
 			allInstrs(ctor, func(in ssa.Instruction) {
 				rt, ok := in.(*ssa.Return)
 				if !ok {
@@ -93,7 +95,8 @@ func runC18(c *Ctx) {
 				}
 				for _, res := range rt.Results {
 					if mc, ok := stripConv(res).(*ssa.MakeClosure); ok {
-						closer = mc.Fn.(*ssa.Function)
+						closer = p.unbound(mc.Fn.(*ssa.Function))
+						closerMC = mc
 					}
 				}
 			})
@@ -102,11 +105,59 @@ func runC18(c *Ctx) {
 				c.und("R18.1", construct, p.pos(ctor.Pos()), "closer closure or stop/exit channels not found")
 			} else {
 				var closeStop, waitExit ssa.Instruction
+				// same channel: same variable, or (a closer that is a method of a small lifetime struct) the
+				// same make(chan) behind both
+				sameChan := func(a, b ssa.Value) bool {
+					if p.canonVar(stripLoad(a)) == p.canonVar(stripLoad(b)) {
+						return true
+					}
+					mk := func(v ssa.Value) map[ssa.Value]bool {
+						out := map[ssa.Value]bool{}
+						for _, o := range c.originsDyn(v) {
+							if os.Getenv("JRP_DEBUG") == "closer" {
+								fmt.Fprintf(os.Stderr, "closer: origin of %s: %s\n", v.Name(), c.fmtPath(o))
+							}
+							if m, ok := o.Root.(*ssa.MakeChan); ok && len(o.Fields) == 0 {
+								out[m] = true
+							}
+							if fv, ok := o.Root.(*ssa.FreeVar); ok && closerMC != nil && fv.Parent() == closerMC.Fn.(*ssa.Function) && len(o.Fields) > 0 {
+								for i, q := range fv.Parent().FreeVars {
+									if q == fv && i < len(closerMC.Bindings) {
+										for _, o2 := range c.originsOf(closerMC.Bindings[i], o.Fields...) {
+											if m, ok := o2.Root.(*ssa.MakeChan); ok && len(o2.Fields) == 0 {
+												out[m] = true
+											}
+										}
+									}
+								}
+							}
+							// a field of the receiver of a bound-method closer: the receiver is the closure's binding
+							if prm, ok := o.Root.(*ssa.Parameter); ok && closerMC != nil && len(closerMC.Bindings) == 1 && len(closer.Params) > 0 && prm == closer.Params[0] && len(o.Fields) > 0 {
+								for _, o2 := range c.originsOf(closerMC.Bindings[0], o.Fields...) {
+									if m, ok := o2.Root.(*ssa.MakeChan); ok && len(o2.Fields) == 0 {
+										out[m] = true
+									}
+								}
+							}
+						}
+						return out
+					}
+					ma, mb := mk(a), mk(b)
+					if len(ma) == 0 || len(mb) == 0 {
+						return false
+					}
+					for m := range ma {
+						if !mb[m] {
+							return false
+						}
+					}
+					return len(ma) == len(mb)
+				}
 				allInstrs(closer, func(in ssa.Instruction) {
-					if ci, ok := isBuiltinCall(in, "close"); ok && p.canonVar(stripLoad(ci.Call.Args[0])) == p.canonVar(stripLoad(stopCh)) {
+					if ci, ok := isBuiltinCall(in, "close"); ok && sameChan(ci.Call.Args[0], stopCh) {
 						closeStop = in
 					}
-					if u, ok := in.(*ssa.UnOp); ok && u.Op == token.ARROW && p.canonVar(stripLoad(u.X)) == p.canonVar(stripLoad(exitCh)) {
+					if u, ok := in.(*ssa.UnOp); ok && u.Op == token.ARROW && sameChan(u.X, exitCh) {
 						waitExit = in
 					}
 				})
@@ -181,15 +232,28 @@ func runC18(c *Ctx) {
 		}
 		// the context: parameter of FN_redial, passed by the loop as its own cancellable context
 		construct := fmt.Sprintf("%s: redial context is the loop's cancelled context", fname(r.FnLoop))
-		okCtx := len(callsTo(r.FnLoop, r.FnRedial)) > 0
-		for _, s := range callsTo(r.FnLoop, r.FnRedial) {
+		sites := p.callers[r.FnRedial]
+		okCtx := len(sites) > 0
+		for _, s := range sites {
 			var arg ssa.Value
 			for _, a := range s.Common().Args {
 				if isNamed(a.Type(), "context", "Context") {
 					arg = a
 				}
 			}
-			if arg == nil || !c.isLoopCtx(arg) {
+			if arg == nil {
+				okCtx = false
+				continue
+			}
+			if c.isLoopCtx(arg) {
+				continue
+			}
+			// called through a helper of the loop (recoverConn(ctx, …)): the helper's context parameter is
+			// the loop's context at every call site
+			if !c.allOrigins(arg, func(a apath) bool {
+				v, ok := a.Root.(ssa.Value)
+				return ok && len(a.Fields) == 0 && c.isLoopCtx(v)
+			}) {
 				okCtx = false
 			}
 		}
